@@ -916,6 +916,7 @@ func c02BIP341(r *core.Run, p *core.Program) {
 		Anchor: firstCall(cs, "lib/btc.SchnorrVerify")})
 	guardOb(r, p, rule, "checker/explicit-default-fails", "a 65-byte signature with hash type 0 fails", an.GuardSpec{Fn: cs, Fail: bf, Match: an.MatchCmpConst(0, token.EQL, "param#1", "elem")})
 	guardOb(r, p, rule, "checker/size", "a signature that is neither 64 nor 65 bytes fails", an.GuardSpec{Fn: cs, Fail: bf, Match: an.MatchCmpConst(65, token.NEQ, "len", "param#1")})
+	c02SchnorrArgs(r, p, rule)
 }
 
 // evalSmall folds +, <<, | over small constants.
@@ -1290,4 +1291,67 @@ func c02CacheOwners(r *core.Run, p *core.Program, rule string) {
 	}
 	sort.Strings(bad)
 	r.Check(len(bad) == 0 && len(owners) >= 5, rule, "cache-field-owners", "-", fmt.Sprintf("%d cache fields, each used by one signature-hash function only", len(owners)), "a cached sub-hash is shared between digests that define it differently: "+strings.Join(bad, "; "))
+}
+
+// c02SchnorrArgs: what the Schnorr checker signs over and verifies.  The hash type handed to the BIP341
+// digest is the signature's 65th byte when the signature has 65 bytes and SIGHASH_DEFAULT (0) otherwise; the
+// signature handed to the verification is the first 64 bytes.  Decided on the merge of the two cases: every
+// incoming value is one of the two forms and arrives under the matching outcome of the length test.
+func c02SchnorrArgs(r *core.Run, p *core.Program, rule string) {
+	cs := p.Func("lib/script.(*SigChecker).CheckSchnorrSignature")
+	if cs == nil {
+		r.Fail(rule, "checker/hash-type-source", "-", "Schnorr checker not found")
+		return
+	}
+	const is65 = "(builtin.len(param#1) == 65)"
+	const is64 = "(builtin.len(param#1) == 64)"
+	check := func(key, what, callee string, arg int, form65, formElse []string) {
+		calls := an.CallsTo(cs, false, callee)
+		if len(calls) != 1 {
+			r.Fail(rule, key, p.Pos(cs.Pos()), fmt.Sprintf("%s: %d calls of %s in the checker (expected 1)", what, len(calls), callee))
+			return
+		}
+		call := calls[0]
+		args := call.Common().Args
+		if arg >= len(args) {
+			r.Fail(rule, key, p.Pos(cs.Pos()), what+": unexpected call shape")
+			return
+		}
+		in := func(s string, l []string) bool {
+			for _, x := range l {
+				if x == s {
+					return true
+				}
+			}
+			return false
+		}
+		var bad []string
+		n := 0
+		var walk func(v ssa.Value, conds []an.DomCond, d int)
+		walk = func(v ssa.Value, conds []an.DomCond, d int) {
+			if ph, ok := v.(*ssa.Phi); ok && d < 6 {
+				for i, e := range ph.Edges {
+					walk(e, append(an.EdgeConds(ph.Block().Preds[i], ph.Block()), conds...), d+1)
+				}
+				return
+			}
+			n++
+			e := an.Anon(an.Expr(v))
+			switch {
+			// the size rule leaves only 64 and 65: "is 65" and "is not 64" are the same test
+			case in(e, form65) && (an.HasCond(conds, is65, true) || an.HasCond(conds, is64, false)):
+			case in(e, formElse) && (an.HasCond(conds, is65, false) || an.HasCond(conds, is64, true)):
+			case in(e, form65) || in(e, formElse):
+				bad = append(bad, "'"+e+"' does not arrive under the matching outcome of the 65-byte test")
+			default:
+				bad = append(bad, "'"+e+"'")
+			}
+		}
+		walk(args[arg], an.DomConds(call.(ssa.Instruction).Block()), 0)
+		r.Check(len(bad) == 0 && n > 0, rule, key, p.Pos(call.Pos()), what, what+": "+strings.Join(bad, "; "))
+	}
+	check("checker/hash-type-source", "the digest's hash type is the 65th byte of a 65-byte signature, else SIGHASH_DEFAULT", "(*lib/btc.Tx).TaprootSigHash", 3,
+		[]string{"param#1[64]"}, []string{"0"})
+	check("checker/verified-signature", "the verified signature is the first 64 bytes", "lib/btc.SchnorrVerify", 1,
+		[]string{"param#1[:64]"}, []string{"param#1"})
 }
